@@ -71,7 +71,8 @@ type c14Result struct {
 func c14Run(r *core.Run, idx int, rng *rand.Rand) {
 	const wl = "bombs"
 	thorough := r.Tier == "thorough"
-	sizes := []int64{1 << 20, 4 << 20, 16 << 20, 64 << 20, 256 << 20}
+	// (36 MiB: just above what is judged as "must not be accepted", and with a run of one byte still below 40 kB deflated)
+	sizes := []int64{1 << 20, 4 << 20, 16 << 20, 36 << 20, 64 << 20, 256 << 20}
 	if thorough {
 		sizes = append(sizes, 1<<30)
 	}
@@ -243,9 +244,9 @@ func init() {
 		TimeoutQuick: 10 * time.Minute, TimeoutThorough: 40 * time.Minute,
 		Build: func(c *Ctx) []core.Workload {
 			r := c.Run
-			r.Rule = "DEFLATE payloads inflating to 1, 4, 16, 64, 256 MiB (thorough: + 1 GiB) with the padding in a comment, in text, in an attribute value, in front of or after the root element or as pure garbage, also while the key storage is failing, as raw DEFLATE and inside zlib / gzip containers, inside otherwise valid and invalid AuthnRequests / LogoutRequests, sent to the SSO endpoint by query and by form and to the logout endpoint by query and by form; strictly sequential in a dedicated child process. Monitor: runtime.MemStats.TotalAlloc delta around one ServeHTTP (ceiling 512 MiB), flatness (256 MiB / 1 GiB bombs may cost at most 1.5 x the 64 MiB bomb + 16 MiB), payloads inflating to >= 32 MiB not accepted. Sizes ascend and the run stops at the first ceiling/flatness violation. Distinct = (endpoint, placement, validity, size)."
+			r.Rule = "DEFLATE payloads inflating to 1, 4, 16, 36, 64, 256 MiB (thorough: + 1 GiB) with the padding in a comment, in text, in an attribute value, in front of or after the root element or as pure garbage, also while the key storage is failing, as raw DEFLATE and inside zlib / gzip containers, inside otherwise valid and invalid AuthnRequests / LogoutRequests, sent to the SSO endpoint by query and by form and to the logout endpoint by query and by form; strictly sequential in a dedicated child process. Monitor: runtime.MemStats.TotalAlloc delta around one ServeHTTP (ceiling 512 MiB), flatness (256 MiB / 1 GiB bombs may cost at most 1.5 x the 64 MiB bomb + 16 MiB), payloads inflating to >= 32 MiB not accepted. Sizes ascend and the run stops at the first ceiling/flatness violation. Distinct = (endpoint, placement, validity, size)."
 			r.Assume("TotalAlloc (cumulative allocation) is measured, not resident memory; thresholds are loose so that any reasonable cap (8-32 MiB) passes")
-			r.Require("payloads", int64(c.Pick(70, 130)))
+			r.Require("payloads", int64(c.Pick(80, 150)))
 			r.Require("payloads_during_key_storage_fault", 10)
 			r.Require("flatness_comparisons", int64(c.Pick(10, 40)))
 			return []core.Workload{{Name: "bombs", N: 1, Workers: 1, Fn: c14Run}}
